@@ -12,7 +12,11 @@ let run_case (line : string) : string =
   | f :: ops ->
       let (_, prog) = parse_filter f in
       (match prog with Some p when not (returns p) -> failwith "ill-formed filter body" | _ -> ());
-      let id = n 7 and peer_asn = n 12345 in
+      (* `A <asn> <four>`: a real session with a peer of that AS; else the scripted session's dummy peer, AS12345 *)
+      let (real_peer, legacy, ops) = match ops with
+        | ["A"; asn; four] :: rest -> (Some (i_of asn), four = "0", rest)
+        | _ -> (None, false, ops) in
+      let id = n 7 and peer_asn = n (match real_peer with Some a -> a | None -> 12345) in
       let show_pay (p : RibModel.payload) =
         let ((_, pfx), i) = p.RibModel.p_key in
         if p.RibModel.p_active then Printf.sprintf "+%s#%s/%s" (pn pfx) (pn i) (pn p.RibModel.p_attrs)
@@ -26,9 +30,16 @@ let run_case (line : string) : string =
           match op with
           | ["G"; tag; a; ann; wd] ->
               let u = BmpModel.URoutes (n 0, plist ann, n (i_of tag), n 0, plist wd) in
-              Stdlib.List.map show_down (bgp_unit lb render prog id (u, bgp_view id peer_asn u (parse_attrs a)))
+              Stdlib.List.map show_down (bgp_unit lb render prog id (u, bgp_view (sess_prov id (n 0) peer_asn) u (parse_attrs a) legacy))
           | _ -> failwith ("bad op: " ^ join " " op)) ops) in
       (* Processor::process after the loop: the session's routes are withdrawn *)
-      let fin l = "seq:" ^ join ";" (l @ ["w#" ^ pn id]) in
+      let fin l = (match real_peer with Some a -> "peer:" ^ string_of_int a ^ " " | None -> "")
+                  ^ "seq:" ^ join ";" (l @ ["w#" ^ pn id]) in
       let m = fin (run true FilterGlue.render_bgp) and s = fin (run false FilterGlue.render_msg_spec) in
-      if m = s then m else m ^ " ||| " ^ s ^ " ||| K1"
+      (* predicates as the code has them, every entry sent: differs from the model only by finding K1, from the
+         property only by finding K3 (AS-path predicates on a session without the 4-octet capability) *)
+      let k = fin (run true FilterGlue.render_msg_spec) in
+      if m = s then m
+      else
+        let c = if k = s then "K1" else if k = m then "K3" else "K1K3" in
+        m ^ " ||| " ^ s ^ " ||| " ^ (match real_peer with Some _ -> ". " ^ c | None -> c)
